@@ -16,7 +16,7 @@ theorem n_prog {α} {m : DrvM α} (hs : SafeProg m) {Lm tt rt : Nat} {s : NetSta
     (h : wp E (liftRf m) (fun a s' => TI Lm tt rt s' → NP s s' → s'.node = { s.node with rf := s'.node.rf } → Q a s') s) :
     wp E (liftRf m) Q s := by
   unfold wp at *
-  rw [nexec_liftRf] at *
+  rw [nexec_liftRf7] at *
   have hp := hs.sound s.drv
   obtain ⟨t1, t2⟩ := hti.putDrv _ (hp.adv hti.txs)
   have hn := NetState.node_putDrv s (exec m s.drv).2 hti.cur
@@ -120,7 +120,7 @@ theorem n_send (hm : s.MidS p0 a1 aN v) (hti : TI Lm tt rt s) (htx : TxC s) (buf
   rw [hex] at hk
   obtain ⟨x1, x2, x3, x4, x5, x6⟩ := ti_of_same hm hti htx hk hq hsuf
   unfold wp
-  rw [nexec_liftRf, hex]
+  rw [nexec_liftRf7, hex]
   exact hQ r _ x1 x2 x3 x4 x5 x6
 
 /-- `self._rf24.resend(send_only=True)`: … and it takes time -/
@@ -137,7 +137,7 @@ theorem n_resend (hm : s.MidS p0 a1 aN v) (hti : TI Lm tt rt s) (htx : TxC s) {E
   have hc := resend_clock s.drv hm.2.1
   rw [hex] at hc
   unfold wp
-  rw [nexec_liftRf, hex]
+  rw [nexec_liftRf7, hex]
   exact hQ r _ x1 x2 x3 x4 x5 x6 hc
 
 end
